@@ -14,7 +14,7 @@ P = {
          "and of Mp4Writer (write_start, add_track, write_sample, update_mdat_size, write_end) is proved to transform the abstract views (per-sample sizes, durations, composition offsets, sync flags, chunk map) exactly as "
          "appending the written sample does, for all histories; rejected calls are proved to leave the writer observationally unchanged; the pending bytes are proved to be appended verbatim and flushed at the recorded offset. "
          "The views are the ISO expansions that C03 proves the reader to implement."),
-   note=TRUST + " Both halves are mechanised separately -- muxer: history -> tables -> bytes (reference encoders); reader: bytes -> moov -> trak -> ... -> tables (file_parsed / moov_at / stbl_at, decoding of the last child of each type on the sibling chain) -> lookups -- and the table / header codecs are connected by proved spec-level round-trip lemmas; Mp4Writer::write_end's postcondition mw_final names the finished file, and the specification-level lemmas lemma_moov_roundtrip / lemma_file_roundtrip prove that such a file satisfies the reader's file relation for the muxer's own (normalised) movie box and ftyp; the invariant that carries write_start's layout through the appending steps (stream_grows, mw_layout) is proved too (lemma_muxed_file); lemma_moov_muxed_of_final supplies its hypothesis on the movie box for AVC / AAC tracks with canonical language codes; not linked by proof: the sample-bytes half (lookups on the muxer's tables return the offsets where write_sample put the bytes). Histories < 2^32-2 samples per track and sample length < 4 GiB are stated preconditions."),
+   note=TRUST + " Both halves are mechanised separately -- muxer: history -> tables -> bytes (reference encoders); reader: bytes -> moov -> trak -> ... -> tables (file_parsed / moov_at / stbl_at, decoding of the last child of each type on the sibling chain) -> lookups -- and the table / header codecs are connected by proved spec-level round-trip lemmas; Mp4Writer::write_end's postcondition mw_final names the finished file, and the specification-level lemmas lemma_moov_roundtrip / lemma_file_roundtrip prove that such a file satisfies the reader's file relation for the muxer's own (normalised) movie box and ftyp; the invariant that carries write_start's layout through the appending steps (stream_grows, mw_layout) is proved too (lemma_muxed_file); lemma_moov_muxed_of_final supplies its hypothesis on the movie box for tracks with canonical language codes; not linked by proof: the sample-bytes half (lookups on the muxer's tables return the offsets where write_sample put the bytes). Histories < 2^32-2 samples per track and sample length < 4 GiB are stated preconditions."),
  'C02': dict(claim=True, cat='proof', technique='Verus: representation invariant = mutual consistency of the tables, chunk-map step lemma, duration contracts, byte-exact layout of write_start / update_mdat_size, size contracts on every box of the moov tree',
    text=("The writer invariant tw_wf is literally the mutual consistency of the sample tables (size, time-to-sample, composition-offset, sample-to-chunk tables each account for exactly n samples; sync numbers strictly increasing and in range; "
          "every chunk holds at least one sample); write_end is proved to return tables satisfying muxed_tables_consistent; mdhd.duration is proved equal to the summed durations, tkhd.duration to its floor conversion, the movie duration to the maximum; "
@@ -81,7 +81,7 @@ P = {
          "Mp4Writer::write_end's postcondition (mw_final) names the finished file: pending chunks flushed in track order, mdat size patched, moov = byte-exact encoding of the finished tracks. "
          "lemma_trak_roundtrip / lemma_moov_roundtrip / lemma_file_roundtrip prove at specification level that the reader's relations hold on those bytes for the same (normalised) values. "
          "lemma_moov_muxed_of_final supplies the hypothesis of lemma_muxed_file from mw_final and the per-track invariant tw_static_muxed (AVC / AAC sample description as built by Mp4TrackWriter::new, canonical three-letter language code), so for such tracks the finished file satisfies the reader's file relation for the muxer's own configuration. "
-         "Level 'other': the outermost induction over the call history is the usual invariant argument, not a Verus theorem; HEVC / VP9 / subtitle entries have no specification-level decode round trip."),
+         "Level 'other': the outermost induction over the call history is the usual invariant argument, not a Verus theorem; for HEVC / VP9 / subtitle tracks the entry round trips are proved too (lemma_hev1/vp09/tx3g_roundtrip), but that Mp4TrackWriter::new builds exactly those shapes is a postcondition for AVC and AAC only."),
    note=TRUST),
  'C15': dict(claim=True, cat='proof', technique='Verus frame conditions + postconditions that are functions of (tables, stream data, arguments)',
    text="Reader calls leave tracks/moov/ftyp/size and the stream content unchanged (&mut self frame proved) and their results are specified purely in terms of the tables, the stream data and the arguments (never the stream position), with uniqueness lemmas, so any call history returns what a fresh reader returns. Muxer: every step's result is a function of the previous abstract state and the arguments (C01).",
